@@ -229,7 +229,11 @@ Definition dependsOn (c1 c2 : change) : bool :=
   | DropTable _ _, AddTable _ _ => false
   | ModifyTable t1 cs, AddTable t2 _ =>
       same_table t1 t2
-      || existsb (fun c => match c with AddFK f => same_table (f_ref f) t2 | _ => false end) cs
+      || existsb (fun c => match c with
+                            | AddFK f => same_table (f_ref f) t2
+                            | ModifyFK _ to => same_table (f_ref to) t2    (* fix C04-modfk-detached *)
+                            | _ => false
+                            end) cs
   | ModifyTable _ _, ModifyTable _ _ => false
   | ModifyTable _ _, DropTable _ _ => false
   end.
@@ -351,16 +355,25 @@ Record cat := mkCat { c_tabs : list nat; c_fks : list (nat * nat * nat) }.  (* (
 Definition fk_key_neqb (child sym : nat) (e : nat * nat * nat) : bool :=
   negb ((fst (fst e) =? child) && (snd (fst e) =? sym)).
 
+(* is the foreign key (child, symbol) live? *)
+Definition fk_live (child sym : nat) (c : cat) : bool :=
+  existsb (fun e => negb (fk_key_neqb child sym e)) (c_fks c).
+
 Definition replay_tc (t : nat) (c : cat) (tc : tchange) : option cat :=
   match tc with
   | AddFK f =>
       if mem (t_name (f_ref f)) (c_tabs c)
       then Some (mkCat (c_tabs c) (c_fks c ++ [(t, f_sym f, t_name (f_ref f))]))
       else None
-  | DropFK f => Some (mkCat (c_tabs c) (filter (fk_key_neqb t (f_sym f)) (c_fks c)))
+  | DropFK f =>
+      if fk_live t (f_sym f) c                                          (* DROP of a key that is not live *)
+      then Some (mkCat (c_tabs c) (filter (fk_key_neqb t (f_sym f)) (c_fks c)))
+      else None
   | ModifyFK from to =>
       if mem (t_name (f_ref to)) (c_tabs c)
-      then Some (mkCat (c_tabs c) (filter (fk_key_neqb t (f_sym from)) (c_fks c) ++ [(t, f_sym to, t_name (f_ref to))]))
+      then if fk_live t (f_sym from) c
+           then Some (mkCat (c_tabs c) (filter (fk_key_neqb t (f_sym from)) (c_fks c) ++ [(t, f_sym to, t_name (f_ref to))]))
+           else None
       else None
   | Other _ => Some c
   end.
